@@ -44,8 +44,15 @@ type Pop struct {
 	Files    []*PFile
 	nmarker  int
 	Protect  int // physical directory that Step never removes or populates (-1: none)
+	Opt      PopOpt
 	Kinds    [][2]string
 	DevPool  []string
+}
+
+// PopOpt tunes the generated Spec files.
+type PopOpt struct {
+	Rich  bool       // all edit kinds (device nodes, RDT, GIDs, annotations), not only env/mounts/hooks
+	Hosts []HostNode // host device nodes the generated device nodes may refer to
 }
 
 type Winner struct {
@@ -85,7 +92,7 @@ func (p *Pop) newValidFile(r *rand.Rand, phys int, name string) *PFile {
 		names = append(names, p.DevPool[perm[i]])
 	}
 	f := &PFile{Phys: phys, Name: name, Kind: "valid", Marker: p.marker()}
-	f.Spec = genSpec(r, SpecGen{Vendor: k[0], Class: k[1], Marker: f.Marker, DevNames: names, Plain: true})
+	f.Spec = genSpec(r, SpecGen{Vendor: k[0], Class: k[1], Marker: f.Marker, DevNames: names, Plain: !p.Opt.Rich, HostNodes: p.Opt.Hosts})
 	f.Enc = "json"
 	if strings.HasSuffix(name, ".yaml") || (!strings.HasSuffix(name, ".json") && chance(r, 50)) {
 		f.Enc = "yaml"
@@ -113,8 +120,11 @@ var specFileNames = []string{"a.json", "b.yaml", "c.json", "d.yaml", "e.json", "
 var nonSpecNames = []string{"notes.txt", "a.json.bak", "spec.123.tmp", "README", "b.JSON", "c.yml", "d.yaml~", "sub/inner.json", "sub.json/inner.yaml"}
 
 // genPop generates a population with 1..4 configured directories.
-func genPop(r *rand.Rand, root string) *Pop {
+func genPop(r *rand.Rand, root string, opt ...PopOpt) *Pop {
 	p := &Pop{Root: root, Protect: -1}
+	if len(opt) > 0 {
+		p.Opt = opt[0]
+	}
 	p.Kinds = [][2]string{{"vendor.com", "gpu"}, {"acme.io", "net"}}
 	if chance(r, 30) {
 		p.Kinds = append(p.Kinds, [2]string{"vendor.com", "net"})
